@@ -9,3 +9,34 @@ def run_tables(ck, rule, gen, scope='present', **kw):
         table_rule(ck, rule, case, spec, scope=scope)
         n += 1
     return n
+
+
+TIME_SWEEP = ['dt64_s', 'epoch_list', 'epoch_array', 'series', 'series_tz', 'dtindex', 'dtindex_tz', 'dtindex_s', 'series_us', 'pydatetime']
+DATA_SWEEP = ['list_nan', 'tuple_nan', 'ndarray', 'series']
+
+
+def run_carrier_sweep(ck, rule, gen, time=True, data=True, n_max=3, per_class=4, **kw):
+    """The table properties quantify over "all series": the same scenarios (short lengths, a few per scenario class) are repeated with the
+    series and the time axis handed over in the other supported containers (C15 compares carriers with each other; here each carrier is
+    held against the specification itself).  Scenarios whose instants a carrier cannot represent are skipped."""
+    sweeps = [('tcarrier', tc) for tc in (TIME_SWEEP if time else [])] + [('carrier', dc) for dc in (DATA_SWEEP if data else [])]
+    for param, value in sweeps:
+        seen = {}
+        try:
+            it = gen('quick', **dict(kw, **{param: value}))
+            while True:
+                try:
+                    case, spec = next(it)
+                except StopIteration:
+                    break
+                except ValueError:
+                    continue       # instants not representable in this carrier
+                cls = (case.meta.get('class'), case.n)
+                if case.n > n_max or seen.get(cls, 0) >= per_class:
+                    continue
+                seen[cls] = seen.get(cls, 0) + 1
+                case.label = f'{case.label} [{param}={value}]'
+                case.meta = dict(case.meta, **{'class': f'{case.meta.get("class", "")}/{value}'})
+                table_rule(ck, rule, case, spec, scope='present')
+        except ValueError:
+            continue
